@@ -18,6 +18,7 @@ pub mod c14;
 pub mod c15;
 pub mod c16;
 pub mod c17;
+pub mod c18;
 pub mod c19;
 
 pub type MonFn = fn(&mut Ctx);
@@ -65,6 +66,9 @@ pub fn registry() -> Vec<(&'static str, &'static str, MonFn)> {
         ("c17_exh", "C17", c17::exhaustive as MonFn),
         ("c17_rand", "C17", c17::random as MonFn),
         ("c17_case", "C17", c17::single as MonFn),
+        ("c18_simplify_exh", "C18", c18::simplify_exh as MonFn),
+        ("c18_simplify_rand", "C18", c18::simplify_rand as MonFn),
+        ("c18_parsers", "C18", c18::parsers as MonFn),
         ("c02_pairs", "C02", c02::pairs as MonFn),
     ]
 }
